@@ -13,7 +13,7 @@ After the line loop the reader
   sender list and every signal's receiver list (`del_ecu`), recomputing the frame receivers,
 * moves the signals of the pseudo frame `VECTOR__INDEPENDENT_SIG_MSG` (identifier 0x40000000) to the matrix and deletes that frame.
 
-Not modelled here (decided by the round-trip observation): cycle times, start values (Model/DbcStart.lean), ENUM index-to-name conversion,
+Cycle times are modelled since round 10 (`frameCycle`, `sigCycle`).  Not modelled here (decided by the round-trip observation): start values (Model/DbcStart.lean), ENUM index-to-name conversion,
 `multiplex_signals`, the CAN FD / J1939 flags, environment variables.  The result is the projection that is compared with the matrix
 `dbc.load` returns: names, senders, receivers, comments and the attributes that are neither carriers nor of an ENUM type.
 -/
@@ -25,6 +25,7 @@ structure PSig where
   receivers : List Str
   attrs : List (Str × Str)
   comment : Option Str
+  cycle : Int := 0
   deriving Repr, DecidableEq, Inhabited
 
 structure PFrame where
@@ -35,6 +36,7 @@ structure PFrame where
   attrs : List (Str × Str)
   comment : Option Str
   sigs : List PSig
+  cycle : Int := 0
   deriving Repr, DecidableEq, Inhabited
 
 structure PMatrix where
@@ -82,17 +84,37 @@ def repeatN {α} (n : Nat) (f : α → α) (x : α) : α :=
   | 0 => x
   | n + 1 => repeatN n f (f x)
 
+/-- `int(float(text))` for the text of a decimal number: the value cut towards zero (texts `float()` takes beyond the decimal numbers
+of the format - underscores, `inf`, `nan` - are outside the model; values beyond 2^53 lose digits in `float`, the model keeps them) -/
+def floatTextToInt (v : Str) : Option Int :=
+  (strToDec (stripWs v)).map fun d =>
+    let mag : Nat := if d.exp ≥ 0 then d.coeff * 10 ^ d.exp.toNat else d.coeff / 10 ^ (-d.exp).toNat
+    if d.neg then -(mag : Int) else (mag : Int)
+
+/-- `frame.cycle_time = int(float(attributes.get("GenMsgCycleTime", 0)))`; a value that is no finite number is ignored -/
+def frameCycle (attrs : List (Str × Str)) : Int :=
+  match lookupAttr attrs "GenMsgCycleTime".toList with
+  | some v => (floatTextToInt v).getD 0
+  | none => 0
+
+/-- `signal.cycle_time = int(attributes.get("GenSigCycleTime", 0))`; a value `int()` refuses is ignored -/
+def sigCycle (attrs : List (Str × Str)) : Int :=
+  match lookupAttr attrs "GenSigCycleTime".toList with
+  | some v => (pyIntKey v).getD 0
+  | none => 0
+
 /-- long names of the ECUs -/
 def postEcus1 (m : RMatrix) : List (Str × List (Str × Str)) := m.ecus.map fun e => longName "SystemNodeLongSymbol" e.name e.attrs
 
 def postSig (s : RSig) : PSig :=
   let (n, a) := longName "SystemSignalLongSymbol" s.sg.name s.attrs
-  { name := n, receivers := s.sg.receivers, attrs := a, comment := s.comment }
+  { name := n, receivers := s.sg.receivers, attrs := a, comment := s.comment, cycle := sigCycle s.attrs }
 
 /-- long names of frames and signals -/
 def postFrames1 (m : RMatrix) : List PFrame := m.frames.map fun f =>
   let (n, a) := longName "SystemMessageLongSymbol" f.name f.attrs
-  { key := f.key, name := n, tx := f.transmitters, rx := [], attrs := a, comment := f.comment, sigs := f.sigs.map postSig }
+  { key := f.key, name := n, tx := f.transmitters, rx := [], attrs := a, comment := f.comment, sigs := f.sigs.map postSig,
+    cycle := frameCycle f.attrs }
 
 /-- texts of STRING attributes -/
 def postFrames2 (m : RMatrix) : List PFrame := (postFrames1 m).map fun (f : PFrame) =>
